@@ -1000,7 +1000,12 @@ class Shelxfile():
         self._reslist[self.index_of(obj)] = new_line
 
     def index_of(self, obj: Union[Atom, Restraint, Command]) -> int:
-        return self._reslist.index(obj)
+        # Search for the object itself: list.index() compares with ==, and atoms compare equal when their
+        # text lines are equal, so it would return the first atom (or plain line) with the same text.
+        for num, item in enumerate(self._reslist):
+            if item is obj:
+                return num
+        raise ValueError('object is not in the file')
 
     @property
     def sum_formula(self) -> str:
